@@ -964,3 +964,69 @@ func c11Charsets(run *PropRun) {
 	run.Extra["charsets_enumerated_natively"] = seen
 	run.Extra["charset_enumeration_step_for_multibyte_sets"] = step
 }
+
+// c17WidePad: "'?' always occupying the cell's width" - a wide rune the charset cannot represent is written as '?' plus a
+// pad, also when combining runes the charset can represent follow it. Bounded native stand-in: the real drawCell on a
+// screen with an empty description (only the cell text reaches the buffer), ISO8859-6 (U+064B is representable) and
+// US-ASCII (nothing combining is), a wide rune alone and with one / two combining runes.
+func c17WidePad(run *PropRun) {
+	src := replayTest("tcell", []string{"golang.org/x/text/encoding", "golang.org/x/text/encoding/charmap", "github.com/gdamore/encoding as gencoding", modPath + "/terminfo"}, `
+	sets := []struct {
+		name string
+		enc  encoding.Encoding
+		comb rune // a combining rune the charset represents (0: none)
+	}{{"ISO8859-6", charmap.ISO8859_6, 0x064B}, {"US-ASCII", gencoding.ASCII, 0}}
+	bad := ""
+	n := 0
+	for _, cs := range sets {
+		for _, comb := range [][]rune{nil, {0x0301}, {cs.comb}, {cs.comb, 0x0301}} {
+			if len(comb) > 0 && comb[0] == 0 { continue }
+			scr := &tScreen{ti: &terminfo.Terminfo{}}
+			scr.encoder = cs.enc.NewEncoder()
+			scr.charset = cs.name
+			scr.w, scr.h = 10, 1
+			scr.cells.Resize(10, 1)
+			scr.buffering = true
+			scr.cells.SetContent(3, 0, 0x4e16, comb, StyleDefault)
+			_, _, _, cw := scr.cells.GetContent(3, 0)
+			scr.buf.Reset()
+			w := scr.drawCell(3, 0)
+			out := scr.buf.String()
+			// columns the text occupies: one per byte that is not the encoding of a combining rune
+			want := "?"
+			for _, r := range comb {
+				if r == cs.comb && r != 0 { want += string(scr.encodeRune(r, nil)) }
+			}
+			want += " "
+			n++
+			if cw != 2 { continue } // (the width table does not call this rune wide: nothing to check)
+			if w != 2 || out != want {
+				bad = fmt.Sprintf("%s: wide U+4E16 with combining %U drawn as %q (drawCell returned %d), want %q: the substitute has to fill both columns", cs.name, comb, out, w, want)
+				break
+			}
+		}
+		if bad != "" { break }
+	}
+	if bad != "" { fmt.Println("WIDEPAD FAIL " + bad); fail("%s", bad); return }
+	fmt.Printf("WIDEPAD OK %d\n", n)`)
+	src = strings.Replace(src, "\t\"github.com/gdamore/encoding as gencoding\"\n", "\tgencoding \"github.com/gdamore/encoding\"\n", 1)
+	out, err := runOverlayTest(run.Eng.Repo, run.Eng.Repo, src, 300*time.Second, nil)
+	ok, detail := false, ""
+	for _, ln := range strings.Split(out, "\n") {
+		if strings.HasPrefix(ln, "WIDEPAD OK ") {
+			ok = true
+			detail = strings.TrimPrefix(ln, "WIDEPAD OK ") + " cells"
+		}
+		if strings.HasPrefix(ln, "WIDEPAD FAIL ") && detail == "" {
+			detail = strings.TrimPrefix(ln, "WIDEPAD FAIL ")
+		}
+	}
+	if !ok && detail == "" {
+		run.Errors = append(run.Errors, fmt.Sprintf("wide-substitute check did not run: %v %s", err, tail(out, 600)))
+		return
+	}
+	g := run.AddObligation("drawCell/wide-unrepresentable-rune-fills-its-width", "bounded", BoolT(ok),
+		"a wide rune the charset cannot represent is drawn as '?', the combining runes the charset represents, and a pad: two columns (native, ISO8859-6 and US-ASCII, with and without combining runes): "+detail)
+	g.ReplayDir = run.Eng.Repo
+	g.ReplayGo = src
+}
